@@ -127,8 +127,9 @@ def oracles(req, ev, access, prims):
             parts = e.split(" | ")
             res = parts[0]
             drops = [x for x in parts[1][2:].split(",") if x] if len(parts) > 1 else []
-            for d in drops:
-                died(d, li)
+            if t[0] not in ("clonebomb", "debad"):     # their drops are transient values, checked below
+                for d in drops:
+                    died(d, li)
             for a in acc_by_op.get(opi, []):
                 kind, base, off, size, align, cap = a[1], int(a[2]), int(a[3]), int(a[4]), int(a[5]), int(a[6])
                 if off + size > cap:
@@ -231,6 +232,27 @@ def oracles(req, ev, access, prims):
                     if x is not None:
                         born(f, x)
                 regs[nr] = (v, nst)
+            elif op == "clonebomb":
+                v, st = regs[int(t[1])]
+                ids = m["variants"][v]; k = int(t[2])
+                want = []
+                for f in ids[:k]:
+                    if fields[f]["ty"] in DROPPABLE and not fields[f]["uninit"] and st[f] is not None:
+                        want.append(fields[f]["ty"] if fields[f]["ty"] in ZST else f"{fields[f]['ty']}{int(st[f]) + 1000000}")
+                if not res.startswith("panic"):
+                    hits.append(("C16", f"clone with a panicking field clone returned {res}", li))
+                elif sorted(drops) != sorted(want):
+                    hits.append(("C16", f"panic in the clone of field {fields[ids[k]]['name']}: destroyed {sorted(drops)}, the clones built so far were {sorted(want)}", li))
+            elif op == "debad":
+                fmt, r, kind, k = t[1], int(t[2]), t[3], int(t[4])
+                v, st = regs[r]
+                ids = m["variants"][v]
+                upto = len(ids) if kind == "long" else k
+                want = [lab(f, st[f]) for f in ids[:upto] if fields[f]["ty"] in DROPPABLE and st[f] is not None]
+                if not res.startswith("err"):
+                    hits.append(("C15", f"malformed input ({fmt} {kind} at {k}) was accepted: {res}", li))
+                elif sorted(drops) != sorted(want):
+                    hits.append(("C15", f"rejected {fmt} input ({kind} at {k}): destroyed {sorted(drops)}, already decoded were {sorted(want)}", li))
             elif op == "clonefrom":
                 dv, dst = regs[int(t[1])]; sv, sst = regs[int(t[2])]
                 for f in m["variants"][dv]:
